@@ -161,10 +161,19 @@ class Pool:
 
 
 class Sdk:
-    def __init__(self, model_text: str, name: Optional[str] = None) -> None:
+    def __init__(self, model_text: str, name: Optional[str] = None, generate: bool = True) -> None:
         _COUNTER[0] += 1
         self.pkg = name or f"sdk{_COUNTER[0]}"
         self.text = model_text
+        if not generate:
+            # source level only: the front end and the exec'd meta-model, no generated package
+            self.types = self.verification = self.jsonization = self.constants = self.stringification = None
+            from vf.models import front_end
+            st, err, atok = front_end(model_text)
+            assert st is not None, err
+            self.symbol_table = st
+            self.source = source_namespace(model_text)
+            return
         root = _root()
         model_path = root / f"{self.pkg}_meta_model.py"
         model_path.write_text(model_text, encoding="utf-8")
@@ -221,7 +230,8 @@ class Sdk:
                 assume(0 <= idx < len(ot.literals))
                 for k, literal in enumerate(ot.literals):
                     if idx == k:
-                        return (getattr(self.sdk_enum(ot), python_naming.enum_literal_name(literal.name)),
+                        return (getattr(self.sdk_enum(ot), python_naming.enum_literal_name(literal.name))
+                                if self.types is not None else None,
                                 getattr(self.source[ot.name], literal.name))
                 raise AssertionError
             if isinstance(ot, intermediate.ConstrainedPrimitive):
@@ -295,7 +305,8 @@ class Sdk:
             ot = ta.our_type
             if isinstance(ot, intermediate.Enumeration):
                 literal = ot.literals[0]
-                return (getattr(self.sdk_enum(ot), python_naming.enum_literal_name(literal.name)),
+                return (getattr(self.sdk_enum(ot), python_naming.enum_literal_name(literal.name))
+                        if self.types is not None else None,
                         getattr(self.source[ot.name], literal.name))
             if isinstance(ot, intermediate.ConstrainedPrimitive):
                 return self.default(intermediate.PrimitiveTypeAnnotation(a_type=ot.constrainee, parsed=None))  # type: ignore
@@ -323,7 +334,7 @@ class Sdk:
                 x, y = self.value(arg.type_annotation, pool, depth, list_len)
             sdk_kwargs[python_naming.argument_name(arg.name)] = x
             src_kwargs[arg.name] = y
-        sdk_instance = self.sdk_class(cls)(**sdk_kwargs)
+        sdk_instance = self.sdk_class(cls)(**sdk_kwargs) if self.types is not None else None
         src_cls = self.source[cls.name]
         src_instance = object.__new__(src_cls)
         # the meta-model's constructor is plain Python; it is the reference for "what the constructor does"
